@@ -9,10 +9,35 @@ class SimRedis:
     def __init__(self, sim: Any) -> None:
         self.sim = sim
         self.data: dict[str, bytes] = {}
+        # fault(task, op, key, phase) -> None | float | "error"
+        #   phase "pre":  float = the command is held up for that many (virtual) seconds before
+        #                 it reaches the server (stalled client, slow network); "error" = the
+        #                 connection fails before the command is sent (not executed)
+        #   phase "post": "error" = the command was executed, the reply is lost
+        self.fault: Any = None
 
     def _seam(self, op: str, key: str = "") -> None:
         self.sim.seam("redis." + op, key)
         self.sim.count("redis." + op)
+        self._fault(op, key, "pre")
+
+    def _fault(self, op: str, key: str, phase: str) -> None:
+        if self.fault is None or not self.sim.in_task():
+            return
+        f = self.fault(self.sim.cur, op, key, phase)
+        if f is None:
+            return
+        if f == "error":
+            import redis
+
+            class SimRedisConnectionError(redis.exceptions.ConnectionError):
+                def __repr__(self) -> str:
+                    return "SimRedisConnectionError(%r)" % (self.args[0] if self.args else "",)
+
+            self.sim.count("redis.connection_error_" + phase)
+            raise SimRedisConnectionError("connection lost %s (simulated)" % ("before the command was sent" if phase == "pre" else "after the command was executed: reply lost"))
+        self.sim.count("redis.stall")
+        self.sim.sleep(float(f))
 
     @staticmethod
     def _b(v: Any) -> bytes:
@@ -29,6 +54,7 @@ class SimRedis:
     def set(self, key: str, value: Any) -> bool:
         self._seam("set", key)
         self.data[key] = self._b(value)
+        self._fault("set", key, "post")
         return True
 
     def setnx(self, key: str, value: Any) -> bool:
@@ -42,6 +68,7 @@ class SimRedis:
         self._seam("incr", key)
         v = int(self.data.get(key, b"0")) + amount
         self.data[key] = str(v).encode()
+        self._fault("incr", key, "post")
         return v
 
     def eval(self, script: str, numkeys: int, *args: Any) -> Any:
@@ -52,6 +79,7 @@ class SimRedis:
         i = int(self.data.get(k, b"0")) + 1
         self.data[k] = str(i).encode()
         self.data["%s:log:%d" % (prefix, i)] = self._b(payload)
+        self._fault("eval", prefix, "post")
         return None
 
 
